@@ -769,12 +769,12 @@ End Agree.
 
 Theorem marshal_agree_jit : forall e co t v fuel res prog,
   frag t -> has_type (fok prims_jit) t v -> compile e co t false = COk prog ->
-  std_marshal e Qraw fuel (Some (t, v)) = SOk res -> (need v <= 4095)%nat ->
+  std_marshal e Qraw fuel (Some (t, v)) = SOk res -> (need v <= 4096)%nat ->
   agree (encode prims_jit e co std_flags (Some (t, v))) res.
 Proof.
   intros e co t v fuel res prog Ht Hv Hc Hs Hn.
   eapply (marshal_agree_frag prims_jit e co jit_i64 jit_u64); try eassumption; try reflexivity.
-  change (p_stack prims_jit) with 4095%N. lia.
+  change (p_stack prims_jit) with 4096%N. lia.
 Qed.
 
 Theorem marshal_agree_vm : forall e co t v fuel res prog,
